@@ -75,3 +75,12 @@ Proof.
   cbv zeta. destruct (cm_enter (CFlag i_as_sealed) v_true (final (exec Skip init_state))) as [[s1 sv]|] eqn:E; [|vm_compute in E; discriminate].
   exists s1, sv. split; [reflexivity|]. split; [vm_compute; discriminate|]. vm_compute in E. inversion E; subst. vm_compute. split; [reflexivity | discriminate].
 Qed.
+
+(* C17_view_options_deep_merge: two nested view_options passing the same dict-valued key; the outer value is back afterwards *)
+Example ex_deep_merge :
+  let outer := VD [(0%Z, AD [(0%Z, ABool true); (2%Z, AD [(3%Z, AInt 1)])])] in
+  let inner := VD [(0%Z, AD [(0%Z, ABool false); (2%Z, AD [(1%Z, AInt 7)]); (1%Z, ANone)])] in
+  observations (exec (Scope CViewOpts outer (Seq (Scope CViewOpts inner (Obs GViewOpts)) (Obs GViewOpts))) init_state)
+  = [VD [(0%Z, AD [(0%Z, ABool false); (2%Z, AD [(3%Z, AInt 1); (1%Z, AInt 7)]); (1%Z, ANone)])]; outer]
+  /\ nodup_keys [(0%Z, AD [(0%Z, ABool false)])] = true.
+Proof. vm_compute. split; reflexivity. Qed.
